@@ -95,6 +95,18 @@ func (m *Model) kindFacts(a *Arith, facts []Fact) *kindKnowledge {
 					}
 				}
 			}
+		case *ssa.Extract:
+			// `_, ok := x.(*object.T)`: ok tells the kind of x just as x.Is(T_OBJ) does
+			if ta, isTA := c.Tuple.(*ssa.TypeAssert); isTA && ta.CommaOk && c.Index == 1 {
+				if k, known := m.Facts().KindOfType[typeStr(ta.AssertedType)]; known {
+					key := a.canonKey(ta.X)
+					if f.Holds {
+						kk.kind[key] = k
+					} else {
+						kk.notKind[key] = append(kk.notKind[key], k)
+					}
+				}
+			}
 		case *ssa.BinOp:
 			if c.Op != token.EQL && c.Op != token.NEQ {
 				continue
